@@ -1273,7 +1273,7 @@ def run(ck, tier, rng):
             ck.sample(c, limit=12)
         for sig, what, rec in viol:
             ck.violation(sig, what, {"entry_point": entry_point(rec), "input": rec}, concrete=True)
-        concrete = len(ck.violations) + len(ck.known_hits)
+        concrete = len(ck.violations)
         diffs = 0
         first = None
         if ck.build.ok:
